@@ -892,7 +892,24 @@ impl gen::CELVisitorCompat<'_> for Parser {
     fn visit_Bytes(&mut self, ctx: &BytesContext<'_>) -> Self::Return {
         let token = ctx.tok.as_deref().expect("Has to have bytes!");
         let string = ctx.get_text();
-        match parse::parse_bytes(&string[2..string.len() - 1]) {
+        // BYTES: ('b' | 'B') ('r' | 'R')? followed by a single- or triple-quoted body.
+        let body = &string[1..];
+        let (raw, body) = match body.strip_prefix(['r', 'R']) {
+            Some(rest) => (true, rest),
+            None => (false, body),
+        };
+        let quotes = if body.starts_with("'''") || body.starts_with("\"\"\"") {
+            3
+        } else {
+            1
+        };
+        let content = &body[quotes..body.len() - quotes];
+        let bytes = if raw {
+            Ok(content.as_bytes().to_vec())
+        } else {
+            parse::parse_bytes(content)
+        };
+        match bytes {
             Ok(bytes) => self
                 .helper
                 .next_expr(token, Expr::Literal(Val::Bytes(bytes))),
